@@ -17,62 +17,65 @@ from .lre_common import model, per, fr, quiet, level_of, state_of
 TN = 4
 
 
-def check(chk, sc, out, method):
-    payload = {"kind": "plan", "sc": _plain(sc), "pairs": _plain(out["pairs"]), "src": list(out["src"])}
+FINDING_TAGS = ("target-date", "instrument-and-target")
+
+
+def break_between(out):
+    """Frame by frame (force_split_frames=True) a new frame starts in every period with a non-zero unanticipated input shock and at every
+    endogenized unanticipated shock; True if such a break separates some target from its (earlier) instrument."""
+    breaks = {k for k in range(1, TN + 1) if any(fr(x) != 0 for x in out["uin"][k - 1])} | {p[3] for p in out["pairs"]}
+    return any(any(se < b <= sx for b in breaks) for (j, sx, i, se) in out["pairs"])
+
+
+def build(sc, out):
+    """Model, input databox and plan of one scenario."""
     mode = sc["mode"]
-    tag = "plan:%s:%s:%s" % (method, mode, sc["id"])
-    if method == "stacked_time" and mode == "unant" and any(p[1] != p[3] for p in out["pairs"]):
-        # known finding: the stacked-time simulator honours an unanticipated target only in the first period of a frame
-        tag = "plan:stacked_time:unant:instrument-date-differs-from-target-date"
-    desc = "model %s %s plan %s (mode %s, prior %s, deviation=%s, init %s, u=%s, a=%s)" % (
-        sc["id"], method, _plain(out["pairs"]), mode, _plain(sc["prior"]), sc["dev"], _plain(sc["init"]), sorted(sc["u"]), sorted(sc["a"]))
     dev = bool(sc["dev"])
     logv = set(out["logv"])
     pathx = dict(out["pathx"])
-    try:
-        m = model(out["src"], out["linear"])
-        span = ir.Span(per(1), per(TN))
-        db = ir.Databox.steady(m, ir.Span(per(-1), per(TN + 2)), deviation=dev)
-        for j, n in enumerate(out["vars"]):
-            for k in (-1, 0):
-                db[n][per(k)] = level_of(n, logv, fr(pathx[k][j]), dev)
-        for j, n in enumerate(out["shocks"]):
-            for k in range(1, TN + 1):
-                db[n][per(k)] = float(fr(out["uin"][k - 1][j]))
-                db["ant_" + n][per(k)] = float(fr(out["ain"][k - 1][j]))
-        plan = ir.SimulationPlan(m, span)
-        for (j, sx, i, se) in out["pairs"]:
-            var, shock = out["vars"][j - 1], out["shocks"][i - 1]
-            db[var][per(sx)] = level_of(var, logv, fr(pathx[sx][j - 1]), dev)
-            if mode == "ant":
-                plan.exogenize_anticipated([per(sx)], var)
-                plan.endogenize_anticipated([per(se)], "ant_" + shock)
-            else:
-                plan.exogenize_unanticipated([per(sx)], var)
-                plan.endogenize_unanticipated([per(se)], shock)
-        kw = {"method": method, "plan": plan, "deviation": dev}
-        if method == "stacked_time":
-            kw["solver_settings"] = {"step_tolerance": 1e6}
-        sim = quiet(m.simulate, db, span, **kw)
-    except Exception as ex:
-        chk.mismatch(tag if tag.endswith("target-date") else tag + ":raised:" + type(ex).__name__, desc + ": raised %r" % (ex,), payload)
-        return
-    # exogenized points hit, whole path recovered
+    m = model(out["src"], out["linear"])
+    span = ir.Span(per(1), per(TN))
+    db = ir.Databox.steady(m, ir.Span(per(-1), per(TN + 2)), deviation=dev)
+    for j, n in enumerate(out["vars"]):
+        for k in (-1, 0):
+            db[n][per(k)] = level_of(n, logv, fr(pathx[k][j]), dev)
+    for j, n in enumerate(out["shocks"]):
+        for k in range(1, TN + 1):
+            db[n][per(k)] = float(fr(out["uin"][k - 1][j]))
+            db["ant_" + n][per(k)] = float(fr(out["ain"][k - 1][j]))
+    plan = ir.SimulationPlan(m, span)
+    for (j, sx, i, se) in out["pairs"]:
+        var, shock = out["vars"][j - 1], out["shocks"][i - 1]
+        db[var][per(sx)] = level_of(var, logv, fr(pathx[sx][j - 1]), dev)
+        if mode == "ant":
+            plan.exogenize_anticipated([per(sx)], var)
+            plan.endogenize_anticipated([per(se)], "ant_" + shock)
+        else:
+            plan.exogenize_unanticipated([per(sx)], var)
+            plan.endogenize_unanticipated([per(se)], shock)
+    return m, db, plan, span
+
+
+def compare(chk, sim, vid, sc, out, tag, desc, payload):
+    """Variant vid of the simulated databox against the spec: exogenized points hit, whole path recovered, instruments recovered, others untouched."""
+    mode = sc["mode"]
+    logv = set(out["logv"])
+    pathx = dict(out["pathx"])
     for j, n in enumerate(out["vars"]):
         for k in range(1, TN + 1):
             e = float(fr(pathx[k][j]))
-            g = state_of(n, logv, float(sim[n].get_data(per(k))[0, 0]))
+            g = state_of(n, logv, float(sim[n].get_data(per(k))[0, vid]))
             if not abs(g - e) <= 1e-8 * max(1.0, abs(e)):
                 is_target = any(p[0] == j + 1 and p[1] == k for p in out["pairs"])
-                chk.mismatch(tag if tag.endswith("target-date") else tag + (":target" if is_target else ":path"), desc + ": %s in period %d is %r, %s %r" % (
+                chk.mismatch(tag if tag.endswith(FINDING_TAGS) else tag + (":target" if is_target else ":path"), desc + ": %s in period %d is %r, %s %r" % (
                     n, k, g, "exogenized to" if is_target else "path of the ordinary simulation", e), payload)
-                return
+                return False
     # shocks: instruments recovered, all others equal to their inputs
     instr = {(p[2], p[3]): float(fr(tv)) for p, tv in zip(out["pairs"], out["truth"])}
     for j, n in enumerate(out["shocks"]):
         for k in range(1, TN + 1):
             for kind, name, inp in (("unant", n, out["uin"]), ("ant", "ant_" + n, out["ain"])):
-                g = float(sim[name].get_data(per(k))[0, 0])
+                g = float(sim[name].get_data(per(k))[0, vid])
                 if kind == mode and (j + 1, k) in instr:
                     e = instr[(j + 1, k)]
                     what = "endogenized shock %s in period %d is %r, the shock of the ordinary simulation is %r" % (name, k, g, e)
@@ -82,8 +85,66 @@ def check(chk, sc, out, method):
                     what = "shock %s in period %d (not endogenized) is %r, input %r" % (name, k, g, e)
                     fp = ":other-shocks"
                 if not abs(g - e) <= 1e-8 * max(1.0, abs(e)):
-                    chk.mismatch(tag if tag.endswith("target-date") else tag + fp, desc + ": " + what, payload)
-                    return
+                    chk.mismatch(tag if tag.endswith(FINDING_TAGS) else tag + fp, desc + ": " + what, payload)
+                    return False
+    return True
+
+
+def describe(sc, out, method):
+    return "model %s %s plan %s (mode %s, prior %s, deviation=%s, init %s, u=%s, a=%s)" % (
+        sc["id"], method, _plain(out["pairs"]), sc["mode"], _plain(sc["prior"]), sc["dev"], _plain(sc["init"]), sorted(sc["u"]), sorted(sc["a"]))
+
+
+def check(chk, sc, out, method, split=False):
+    payload = {"kind": "plan", "sc": _plain(sc), "pairs": _plain(out["pairs"]), "src": list(out["src"])}
+    mode = sc["mode"]
+    tag = "plan:%s:%s:%s" % (method + ("/split-frames" if split else ""), mode, sc["id"])
+    if method == "stacked_time" and mode == "unant" and any(p[1] != p[3] for p in out["pairs"]):
+        # known finding: the stacked-time simulator honours an unanticipated target only in the first period of a frame
+        tag = "plan:stacked_time:unant:instrument-date-differs-from-target-date"
+    if split and mode == "unant" and break_between(out):
+        # known finding: frame by frame, an unanticipated target cannot be reached by an instrument of an earlier frame
+        tag = "plan:first_order/split-frames:unant:frame-break-between-instrument-and-target"
+    desc = describe(sc, out, method + (" with force_split_frames=True" if split else ""))
+    try:
+        m, db, plan, span = build(sc, out)
+        kw = {"method": method, "plan": plan, "deviation": bool(sc["dev"])}
+        if method == "stacked_time":
+            kw["solver_settings"] = {"step_tolerance": 1e6}
+        if split:
+            kw["force_split_frames"] = True
+        sim = quiet(m.simulate, db, span, **kw)
+    except Exception as ex:
+        chk.mismatch(tag if tag.endswith(FINDING_TAGS) else tag + ":raised:" + type(ex).__name__, desc + ": raised %r" % (ex,), payload)
+        return
+    compare(chk, sim, 0, sc, out, tag, desc, payload)
+
+
+def check_data_variants(chk, items, method):
+    """Two scenarios with the same model and plan but different histories, shocks and hence targets, as the two variants of ONE input
+    databox: every variant must hit its own targets and recover its own shocks."""
+    (sc1, out1), (sc2, out2) = items
+    payload = {"kind": "plan-variants", "sc": [_plain(sc1), _plain(sc2)], "pairs": _plain(out1["pairs"])}
+    tag = "plan-variants:%s:%s:%s" % (method, sc1["mode"], sc1["id"])
+    desc = "two data variants in one databox; variant 0: %s; variant 1: %s" % (describe(sc1, out1, method), describe(sc2, out2, method))
+    try:
+        m, db1, plan, span = build(sc1, out1)
+        _, db2, _, _ = build(sc2, out2)
+        db = ir.Databox()
+        whole = ir.Span(per(-1), per(TN + 2))
+        for n in db1.keys():
+            if isinstance(db1[n], ir.Series):
+                db[n] = ir.Series(start=per(-1), values=np.column_stack([db1[n].get_data(whole)[:, 0], db2[n].get_data(whole)[:, 0]]))
+            else:
+                db[n] = db1[n]
+        kw = {"method": method, "plan": plan, "deviation": bool(sc1["dev"]), "num_variants": 2}
+        if method == "stacked_time":
+            kw["solver_settings"] = {"step_tolerance": 1e6}
+        sim = quiet(m.simulate, db, span, **kw)
+    except Exception as ex:
+        chk.mismatch(tag + ":raised:" + type(ex).__name__, desc + ": raised %r" % (ex,), payload)
+        return False
+    return compare(chk, sim, 0, sc1, out1, tag, desc + " - variant 0", payload) and compare(chk, sim, 1, sc2, out2, tag, desc + " - variant 1", payload)
 
 
 def run(chk):
@@ -91,6 +152,7 @@ def run(chk):
     r = tlc.must_pass(tlc.run("PlansMC", "PlansMC.thorough.cfg" if chk.tier == "thorough" else "PlansMC.cfg", chk.scratch, dump=dump, timeout=7200), "PlansMC")
     chk.add_tlc(r, "PlansMC")
     n = skipped = 0
+    groups = {}
     for st in tlaval.parse_dump(dump, want=lambda b: "fin = TRUE" in b):
         sc, out = st["sc"], st["out"]
         if not out["ok"]:
@@ -99,7 +161,9 @@ def run(chk):
         if out["recovered"] != out["truth"]:
             raise MachineryError("PlansMC: swap law false in dump")
         check(chk, sc, out, "first_order")
-        n += 1
+        check(chk, sc, out, "first_order", split=True)
+        n += 2
+        groups.setdefault((sc["id"], sc["mode"], sc["dev"], repr(_plain(out["pairs"]))), []).append((sc, out))
         if not sc["dev"]:                       # stacked time has no deviation mode
             check(chk, sc, out, "stacked_time")
             n += 1
@@ -107,7 +171,23 @@ def run(chk):
             chk.sample({"scenario": _plain(sc), "pairs": _plain(out["pairs"]), "spec_recovered_shocks": _plain(out["truth"]),
                         "spec_path": {str(k): _plain(v) for k, v in sorted(dict(out["pathx"]).items())}})
     os.remove(dump)
-    chk.replayed += n
+    nv = 0
+    for key, lst in sorted(groups.items()):
+        if len(lst) < 2:
+            continue
+        lst.sort(key=lambda so: repr(_plain(so[0])))
+        first, last = lst[0], lst[-1]
+        if repr(_plain(first[1]["pathx"])) == repr(_plain(last[1]["pathx"])):
+            continue
+        check_data_variants(chk, [first, last], "first_order")
+        nv += 1
+        if not key[2] and not (key[1] == "unant" and any(p[1] != p[3] for p in first[1]["pairs"])):
+            check_data_variants(chk, [last, first], "stacked_time")
+            nv += 1
+    if not nv:
+        raise MachineryError("PlansMC: no pair of scenarios for the two-variant databox")
+    chk.notes["two_data_variant_planned_simulations"] = nv
+    chk.replayed += n + nv
     chk.no_claim += skipped
     chk.notes["singular_patterns_excluded"] = skipped
     chk.exhaustive = True
